@@ -9,9 +9,9 @@ import (
 
 type c17Case struct {
 	Debug  bool `json:"debug"`
-	ErrPg  int  `json:"error_page"` // 0 none, 1 valid, 2 missing, 3 fails at run time, 4 valid in a sub-directory
-	Page   int  `json:"page"`       // index into c17Pages
-	Kind   int  `json:"kind"`       // which fault the failing page contains
+	ErrPg  int  `json:"error_page"`       // 0 none, 1 valid, 2 missing, 3 fails at run time, 4 valid in a sub-directory
+	Page   int  `json:"page"`             // index into c17Pages
+	Kind   int  `json:"kind"`             // which fault the failing page contains
 	Second bool `json:"second,omitempty"` // the same call issued a second time (same body expected)
 }
 
@@ -214,7 +214,7 @@ func init() {
 		Bounds: func(tier string) map[string]any {
 			return map[string]any{"configurations": 2 * 5 * len(c17Pages) * len(c17Faults) * 2, "complete": true}
 		},
-		Assume: []string{"the built-in page is recognised by its <html> frame; leak words are the error message parts, identifiers of the failing page, the scratch directory, template file names and the 'Textwire ERROR' prefix"},
+		Assume:  []string{"the built-in page is recognised by its <html> frame; leak words are the error message parts, identifiers of the failing page, the scratch directory, template file names and the 'Textwire ERROR' prefix"},
 		Workers: 8,
 		Run:     c17Run,
 	}
